@@ -48,7 +48,7 @@ func genStyle(t *rapid.T) x.Style {
 	s.Cmt = rapid.IntRange(0, 4).Draw(t, "cmt") == 4
 	s.Heredoc = rapid.IntRange(0, 2).Draw(t, "heredoc")
 	s.Legacy = rapid.Bool().Draw(t, "legacy")
-	s.Esc = rapid.IntRange(0, 99).Draw(t, "esc") == 99
+	s.Esc = rapid.IntRange(0, 7).Draw(t, "esc") == 7
 	s.NumSpell = rapid.Bool().Draw(t, "numspell")
 	s.Alt = rapid.Bool().Draw(t, "alt")
 	s.Seed = rapid.Uint64Range(1, 1<<62).Draw(t, "seed")
@@ -103,20 +103,6 @@ type outcome struct {
 	firstE string
 }
 
-// parseSig: signature component for a parse error; the known \u / \U rejection gets
-// its own narrow class so that no other escape problem can hide behind it.
-func parseSig(d hcl.Diagnostics, st x.Style, src string) string {
-	s := diagSummary(d)
-	if s == "Invalid escape sequence" && st.Esc && (strings.Contains(src, `\u`) || strings.Contains(src, `\U`)) {
-		for _, e := range d {
-			if e.Severity == hcl.DiagError && (strings.Contains(e.Detail, `\u escape`) || strings.Contains(e.Detail, `\U escape`)) {
-				return s + "|unicode-escape"
-			}
-		}
-	}
-	return s
-}
-
 func diagSummary(d hcl.Diagnostics) string {
 	for _, e := range d {
 		if e.Severity == hcl.DiagError {
@@ -143,7 +129,7 @@ func buildCtx(c Case, st x.Style) (*hcl.EvalContext, *core.Violation) {
 		src := x.PrintFuncs(c.Funcs, st)
 		f, diags := hclsyntax.ParseConfig([]byte(src), "funcs.hcl", hcl.InitialPos)
 		if diags.HasErrors() {
-			return nil, core.V("parse|function-block|"+parseSig(diags, st, src), "function definitions do not parse: %s\n%s", diags.Error(), src)
+			return nil, core.V("parse|function-block|"+diagSummary(diags), "function definitions do not parse: %s\n%s", diags.Error(), src)
 		}
 		funcs, _, diags := userfunc.DecodeUserFunctions(f.Body, "function", func() *hcl.EvalContext { return ctx })
 		if diags.HasErrors() {
@@ -179,7 +165,7 @@ func run(c Case, i int, ctx *hcl.EvalContext) (outcome, *core.Violation) {
 		if c.Template && i%2 == 0 {
 			kind = "template"
 		}
-		return o, core.V("parse|"+kind+"|"+parseSig(pd, st, o.src), "printing %d (%s) of the tree does not parse: %s\nsource:\n%s", i, o.mode, pd.Error(), o.src)
+		return o, core.V("parse|"+kind+"|"+diagSummary(pd), "printing %d (%s) of the tree does not parse: %s\nsource:\n%s", i, o.mode, pd.Error(), o.src)
 	}
 	val, vd := expr.Value(ctx)
 	o.val = val
@@ -437,7 +423,7 @@ func faultClass(k string) string {
 	return k
 }
 
-const ruleCommon = "environment of 0-6 variables (numbers incl. dyadic fractions and 2^40, strings incl. numeric/boolean-looking and non-ASCII, bools, nulls, tuples, lists, objects, maps), 0-3 functions defined through ext/userfunc blocks (may call earlier ones, variadic, closures over the variables) plus tryfunc try/can; a typed tree of depth<=6 over literals, variables, unary/binary arithmetic, comparison, equality across types, logic, conditional (same-typed, null, string-unification branches), tuple/object constructors (bare/quoted/computed keys), index (literal, computed, string key), attribute, attribute-only and full splat (incl. traversal inside the splat vs applied to its result, splat of null / single value / list), for-expressions (tuple and object form, key+value variables, if, grouping), calls (incl. argument expansion), templates (literal, ${}, %{if/else}, %{for}, ~ strip markers, passthrough of a single interpolation); with probability 0.35 one node is replaced by an ill-typed variant (16 kinds: ill-typed operator, undefined variable/function, missing attribute, index out of range / negative / fractional / into a primitive, duplicate key without grouping, null or non-primitive in a template, null operand, wrong arity, for over a primitive, non-boolean condition, bad expansion). Every tree is printed 2-3 times: canonical minimal spelling and random spellings (redundant parentheses, spacing, tabs, newlines and # // /* */ comments where insignificant, ':' vs '=' and newline vs comma in object constructors, trailing commas, x.0 vs x[0], .* vs [*], number spellings 1e3 / 2.50 / 25e-1, \\uXXXX escapes, quoted vs heredoc vs flush heredoc with extra indentation). Oracle: all printings RawEqual and same error-ness; reference evaluator (exact rationals) says value => no error diagnostic and same value+type; says error => error diagnostic; trees leaving the documented semantics (README.md) are checked metamorphically only. Non-trivial: an operator with an unparenthesised operand of another precedence level in the minimal spelling, or a for-expression / splat / template directive; distinct = (feature set: operators, conditional, access/splat, for, call, template | depth bucket | fault kind | set of printing modes)"
+const ruleCommon = "environment of 0-6 variables (numbers incl. dyadic fractions and 2^40, strings incl. numeric/boolean-looking and non-ASCII, bools, nulls, tuples, lists, objects, maps), 0-3 functions defined through ext/userfunc blocks (may call earlier ones, variadic, closures over the variables) plus tryfunc try/can; a typed tree of depth<=6 over literals, variables, unary/binary arithmetic, comparison, equality across types, logic, conditional (same-typed, null, string-unification branches), tuple/object constructors (bare/quoted/computed keys), index (literal, computed, string key), attribute, attribute-only and full splat (incl. traversal inside the splat vs applied to its result, splat of null / single value / list), for-expressions (tuple and object form, key+value variables, if, grouping), calls (incl. argument expansion), templates (literal, ${}, %{if/else}, %{for}, ~ strip markers, passthrough of a single interpolation); with probability 0.35 one node is replaced by an ill-typed variant (16 kinds: ill-typed operator, undefined variable/function, missing attribute, index out of range / negative / fractional / into a primitive, duplicate key without grouping, null or non-primitive in a template, null operand, wrong arity, for over a primitive, non-boolean condition, bad expansion). Every tree is printed 2-3 times: canonical minimal spelling and random spellings (redundant parentheses, spacing, tabs, newlines and # // /* */ comments where insignificant, ':' vs '=' and newline vs comma in object constructors, trailing commas, x.0 vs x[0], .* vs [*], number spellings 1e3 / 2.50 / 25e-1, \\xHH byte escapes (the fork's own escape), quoted vs heredoc vs flush heredoc with extra indentation). Oracle: all printings RawEqual and same error-ness; reference evaluator (exact rationals) says value => no error diagnostic and same value+type; says error => error diagnostic; trees leaving the documented semantics (README.md) are checked metamorphically only. Non-trivial: an operator with an unparenthesised operand of another precedence level in the minimal spelling, or a for-expression / splat / template directive; distinct = (feature set: operators, conditional, access/splat, for, call, template | depth bucket | fault kind | set of printing modes)"
 
 var assumptions = []string{
 	"number literals are integers or dyadic fractions so that cty's 512-bit floats are exact; results needing more than 300 bits, non-dyadic quotients, division by zero, modulo outside naturals are not compared with the reference",
